@@ -22,6 +22,9 @@ CLAIMED = {
  "C19": dict(
    text="Every method and constructor of proxyreader.go/proxywriter.go is verified: one underlying call with the caller's arguments, results returned unchanged, one increment by exactly the byte count returned, the fast path (WriterTo/ReaderFrom) offered iff the wrapped value has it (type-invariants make the unchecked assertions safe), the ewma flavour chosen iff asked for, and each moving-average decorator is handed every sample with its duration.",
    note="call records count the direct calls of each function (modular: IncrBy -> IncrInt64 -> closure are separate contracts); io.NopCloser forwards WriterTo (go >= 1.20, assumed); behaviour of the wrapped reader/writer is not constrained", ref="4 C19"),
+ "C20": dict(
+   text="Proved for all inputs: the unit handed to the formatter is the largest that fits (both size types), the number handed to strconv is value/unit (one correctly rounded float division), verb/precision/space-flag/suffix handling, exactly one write; the h/m/s decomposition is exact for 0 <= d < 60 h and the fields are passed in the right order; the estimators conserve time (a sample without progress is carried, at most one Add with (carried+dur)/n, no division by zero); elapsed time and average speed are frozen after completion; percentage conversions are in range on the documented domain. Read-back accuracy of the printed digits is strconv's and is not proved.",
+   note="strconv.AppendFloat, fmt.State/fmt.Sprintf, ewma.MovingAverage, time.* (assumed contracts); time.Since(start) > 0 (start strictly in the past); float64 axioms; ETA products may wrap (noovf) outside the documented domain", ref="4 C20"),
 }
 
 NA = {
